@@ -572,6 +572,83 @@ where
     }
 }
 
+
+// C07: FRI proofs as values
+// ================================================================================================
+
+/// `FriProof` values can only be built by the FRI prover; this scenario produces them over the
+/// whole parameter range - biased to many queries, folding 16 and wide elements, where a layer's
+/// values or openings exceed 64 KiB - and sends each through its own encoding: slice decode and
+/// streaming decode over a chunked stream give an equal value with nothing left over.
+pub fn c07_fri_values() -> Outcome {
+    let _threads = sched::begin(false);
+    let combo = tape::w("fri.combo", 12) as usize;
+    let field = crate::protocol::combo_field(combo);
+    let mut p = draw_params(field, if combo >= 9 { 10 } else { 14 });
+    if tape::w("c07.fri.big", 2) == 0 {
+        p.num_queries = 255;
+        p.folding = [8usize, 16][tape::w("c07.fri.big.folding", 2) as usize];
+        p.log_domain = p.log_domain.max(12).min(if combo >= 9 { 12 } else { 14 });
+        p.blowup = p.blowup.min(8);
+        p.ext = if field == 2 { 2 } else { 2 + tape::w("c07.fri.big.ext", 2) as u8 };
+    }
+    stats::sig((combo as u64) << 16 | (p.log_domain as u64) << 8 | p.folding as u64);
+    with_coin_hasher!(combo, H, B => match p.ext {
+        1 => c07_fri::<B, B, H>(&p, combo),
+        2 => c07_fri::<B, QuadExtension<B>, H>(&p, combo),
+        _ => c07_fri::<B, CubeExtension<B>, H>(&p, combo),
+    })
+}
+
+fn c07_fri<B, E, H>(p: &FriParams, combo: usize) -> Outcome
+where
+    B: StarkField,
+    E: FieldElement<BaseField = B>,
+    H: ElementHasher<BaseField = B>,
+{
+    use utils::{ByteReader, ReadAdapter};
+    if p.truncates() {
+        return Ok(());
+    }
+    let size = p.bound_plus_1();
+    let mut rng = tape::fork(Stream::Workload, "fri.poly");
+    let poly: Vec<E> = rand_vec(&mut rng, size);
+    let evaluations = evaluate::<B, E>(&poly, p.blowup);
+    let positions = draw_positions(p);
+    reset_histories();
+    // a prover that cannot build the proof is C08's subject
+    let Ok(run) = fri_prove::<B, E, H>(p, evaluations, positions) else { return Ok(()) };
+    let bytes = run.proof.to_bytes();
+    stats::nontrivial();
+    stats::count("steps.fri_proof_bytes", bytes.len() as u64);
+    let ctx = || format!("{} ({} bytes)", p.describe(combo), bytes.len());
+    if bytes.len() > (1 << 16) {
+        stats::probe("probe.fri_proof_larger_than_64KiB");
+    }
+    match guard(|| FriProof::read_from_bytes(&bytes)) {
+        Ok(Ok(d)) if d == run.proof => {},
+        Ok(Ok(_)) => fail!("decoded-value-differs", "FriProof", "{}", ctx()),
+        Ok(Err(e)) => fail!("decode-error-on-own-encoding", "FriProof", "{e} :: {}", ctx()),
+        Err(pn) => fail!("panic", pn.site(), "decoding an honest FRI proof: {} :: {}", pn.msg, ctx()),
+    }
+    let mut sim = crate::streams::SimReader::new(bytes.clone(), false);
+    match guard(|| {
+        let mut r = ReadAdapter::new(&mut sim);
+        let d = FriProof::read_from(&mut r);
+        (d, r.has_more_bytes())
+    }) {
+        Ok((Ok(d), false)) if d == run.proof => {},
+        Ok((Ok(_), true)) => fail!("bytes-left-over", "FriProof/ReadAdapter", "{}", ctx()),
+        Ok((Ok(_), false)) => fail!("decoded-value-differs", "FriProof/ReadAdapter", "{}", ctx()),
+        Ok((Err(e), _)) => fail!("decode-error-on-own-encoding", "FriProof/ReadAdapter", "{e} :: {}", ctx()),
+        Err(pn) => fail!("panic", pn.site(), "decoding an honest FRI proof through ReadAdapter: {} :: {}", pn.msg, ctx()),
+    }
+    if run.proof.to_bytes() != bytes {
+        fail!("re-encoding-differs", "FriProof", "{}", ctx());
+    }
+    Ok(())
+}
+
 #[allow(dead_code)]
 fn unused<E: FieldElement>() -> E {
     let mut r = simcore::rng::Rng::new(1);
